@@ -422,6 +422,14 @@ func (bls *bls12Base) BatchVerify(signature hotstuff.QuorumSignature, batch map[
 		}
 		pks = append(pks, pk)
 	}
+	if ids := verifBatchIDs(batch); ids != nil {
+		// (verif build tag only) the same pairs in ascending order of the IDs
+		pks, msgs = pks[:0], msgs[:0]
+		for _, id := range ids {
+			pk, _ := bls.publicKey(id)
+			pks, msgs = append(pks, pk), append(msgs, batch[id])
+		}
+	}
 
 	if len(batch) == 1 {
 		return bls.coreVerify(pks[0], msgs[0], &s.sig, domain)
